@@ -104,3 +104,56 @@ package capnp
 //@   requires idx: l.seg != nil && 0 <= i && i < int(l.length)
 //@   ensures LE64(l.seg.data, int(elemAddr(l.List, i))) == v
 //@   ensures bytesUnchangedExcept(l.seg.data, int(elemAddr(l.List, i)), int(elemAddr(l.List, i))+8)
+
+// ---------------------------------------------------------------- lists of text and data: reading element i of any
+// well-formed list handle never panics, whatever the segment bytes are
+//@ func TextList.At -> s, err
+//@   props C01
+//@   requires wfList(l.List)
+//@   requires idx: l.seg != nil && 0 <= i && i < int(l.length)
+//@   modifies Message.rlimit Message.rlimitInit Message.segs m:map[capnproto.org/go/capnp/v3.SegmentID]*capnproto.org/go/capnp/v3.Segment
+
+//@ func TextList.BytesAt -> b, err
+//@   props C01
+//@   requires wfList(l.List)
+//@   requires idx: l.seg != nil && 0 <= i && i < int(l.length)
+//@   modifies Message.rlimit Message.rlimitInit Message.segs m:map[capnproto.org/go/capnp/v3.SegmentID]*capnproto.org/go/capnp/v3.Segment
+
+//@ func DataList.At -> b, err
+//@   props C01
+//@   requires wfList(l.List)
+//@   requires idx: l.seg != nil && 0 <= i && i < int(l.length)
+//@   modifies Message.rlimit Message.rlimitInit Message.segs m:map[capnproto.org/go/capnp/v3.SegmentID]*capnproto.org/go/capnp/v3.Segment
+
+// ---------------------------------------------------------------- defaults and transforms: well-formed results, no panic
+//@ func unmarshalDefault -> p, err
+//@   props C01
+//@   requires len(def) <= 1<<32
+//@   ensures implies(err != nil, p.seg == nil)
+//@   ensures implies(err == nil, wfPtr(p))
+
+//@ func Ptr.Default -> r, err
+//@   props C01
+//@   requires wfPtr(p) && len(def) <= 1<<32
+//@   ensures implies(err == nil, wfPtr(r))
+
+//@ func Ptr.StructDefault -> s, err
+//@   props C01
+//@   requires wfPtr(p) && len(def) <= 1<<32
+//@   ensures implies(err == nil, wfStruct(s))
+
+//@ func Ptr.ListDefault -> l, err
+//@   props C01
+//@   requires wfPtr(p) && len(def) <= 1<<32
+//@   ensures implies(err == nil, wfList(l))
+
+// Transform walks a chain of pointer fields named by the peer (promised-answer transforms): for any
+// transform and any message bytes it returns a well-formed pointer or an error, never panics
+//@ func Transform -> r, err
+//@   props C01 C08 C11
+//@   requires wfPtr(p)
+//@   -- default values come from the compiled-in schema, far below 4 GiB
+//@   requires forall(0, len(transform), func(k int) bool { return len(transform[k].DefaultValue) <= 1<<32 })
+//@   ensures implies(err == nil, wfPtr(r))
+//@   loop 0 "range transform[:n-1]"
+//@     invariant wfStruct(s)
